@@ -66,6 +66,16 @@ def gen_cond(r, idx=0, kinds=("pinn", "pinn", "mean", "single", "adaptw", "perio
         args.append("k")
     r.shuffle(args)
     cs["resid_args"] = args
+    rd_ = rnd(r.random(), "resid-defaults")
+    if kind in ("pinn", "mean", "single", "adaptw") and rd_.random() < 0.35:
+        # residual arguments declared WITH default values: some of them supplied by the condition (parameter,
+        # data functions, coordinates), others not (their default must arrive)
+        cand = [a for a in args if a != "u"]
+        cs["resid_defaults"] = [a for a in cand if rd_.random() < 0.6]
+        if rd_.random() < 0.7:
+            cs["resid_extra"] = {"zz": rd_.choice((0.25, -1.5))}
+            if rd_.random() < 0.3:
+                cs["resid_extra"]["yy"] = 2.0
     cs["coef"] = {a: r.choice((1.0, -0.5, 2.0, 0.25)) for a in args}
     if kind == "single":
         cs["reduce"] = r.choice(("max", "sum", "mean"))
